@@ -479,6 +479,10 @@ func c13FieldOwner(c *Ctx, fld *types.Var) {
 				for _, s := range nilStores {
 					stops = append(stops, s)
 				}
+				// a path from this release to the use would need the object's kind field to equal two different constants
+				if !allowed && contradictoryKinds(fn, facts[r.Block()], facts[l.instr.Block()]) {
+					allowed = true
+				}
 				if !allowed && canReachAvoiding(r, l.instr, stops) {
 					c.bad(name, "use of the field after Release"+k, p.ipos(l.instr), "the object is used after it went back to the pool")
 				}
@@ -527,6 +531,10 @@ func ruleC13b(c *Ctx) {
 				}
 			}
 			if _, ok := r.(*ssa.DebugRef); ok {
+				continue
+			}
+			// a comparison with nil looks at the pointer, not at the object
+			if bo, ok := r.(*ssa.BinOp); ok && (bo.Op == token.EQL || bo.Op == token.NEQ) && (isNilConst(bo.X) || isNilConst(bo.Y)) {
 				continue
 			}
 			uses = append(uses, r)
@@ -723,4 +731,53 @@ func escapesToHeap(v ssa.Value) ssa.Instruction {
 	}
 	walk(v)
 	return found
+}
+
+// contradictoryKinds: a holds `K1 == x.f` and b holds `K2 == x.f` for two different constants and the same field of the
+// same object, and fn never stores into that field: no execution satisfies both.
+func contradictoryKinds(fn *ssa.Function, a, b map[condFact]bool) bool {
+	type eq struct {
+		base ssa.Value
+		fld  *types.Var
+		k    string
+	}
+	collect := func(m map[condFact]bool) []eq {
+		var out []eq
+		for f := range m {
+			bo, ok := f.Cond.(*ssa.BinOp)
+			if !ok || !((bo.Op == token.EQL && f.Pol) || (bo.Op == token.NEQ && !f.Pol)) {
+				continue
+			}
+			for _, pr := range [][2]ssa.Value{{bo.X, bo.Y}, {bo.Y, bo.X}} {
+				k, isC := constStr(pr[0])
+				if !isC {
+					continue
+				}
+				if base, fld, ok := fieldLoad(strip(pr[1])); ok {
+					out = append(out, eq{strip(base), fld, k})
+				}
+			}
+		}
+		return out
+	}
+	ea, eb := collect(a), collect(b)
+	for _, x := range ea {
+		for _, y := range eb {
+			if x.fld != y.fld || x.base != y.base || x.k == y.k {
+				continue
+			}
+			stored := false
+			eachInstr(fn, func(i ssa.Instruction) {
+				if st, ok := i.(*ssa.Store); ok {
+					if fa, ok := st.Addr.(*ssa.FieldAddr); ok && fieldOfAddr(fa) == x.fld {
+						stored = true
+					}
+				}
+			})
+			if !stored {
+				return true
+			}
+		}
+	}
+	return false
 }
